@@ -391,6 +391,26 @@ def check_matcher(case, ctx):
     cat = tuple(np.concatenate([p[k] for p in parts]) for k in range(3))
     require(all(np.array_equal(a, b) for a, b in zip(cat, res)),
             "Matcher re-used for the query split at %d gives different pairs than the single query", s)
+    # a cone search widened step by step around one position on the same object (scalar radii, the position the
+    # first point): each call is judged on its own against the brute-force separations
+    i0 = 0
+    p_ra, p_dec = float(su.ra1[i0]), float(su.dec1[i0])
+    # (the object last searched somewhere else, so the first cone is computed afresh)
+    must(mobj.match, (p_ra + 180.0) % 360.0, -p_dec, 1e-3, maxmatch=-1)
+    rbig = float(su.rad[i0])
+    seps = np.asarray(su.sep[i0], dtype="f8")
+    same0 = np.asarray(su.same[i0])
+    for frac in (0.25, 0.5, 1.0):
+        r = rbig * frac
+        pr = must(mobj.match, p_ra, p_dec, r, maxmatch=-1)
+        require(isinstance(pr, tuple) and len(pr) == 3, "Matcher.match returned %r", type(pr))
+        got = set(np.asarray(pr[1]).tolist())
+        need = set(np.nonzero((seps < r - TOL) | (same0 & (r >= 0)))[0].tolist())
+        forb = set(np.nonzero((seps > r + TOL) & ~same0)[0].tolist())
+        require(need <= got, "Matcher.match around (%r, %r) with radius %r (after searches with smaller radii on the "
+                "same object) misses points %r of the second set", p_ra, p_dec, r, sorted(need - got)[:5])
+        require(not (got & forb), "Matcher.match around (%r, %r) with radius %r returns points %r that lie outside",
+                p_ra, p_dec, r, sorted(got & forb)[:5])
 
 
 def check_file(case, ctx):
